@@ -51,6 +51,8 @@ def run(ctx):
         ctx.guard("faithful-copy" + tag, faithful_copy, ctx, crate, crs, tag)
         ctx.guard("ids-followed" + tag, ids_followed, ctx, crate, crs, tag)
         ctx.guard("builder-keeps-fields" + tag, builder_keeps_fields, ctx, crate, tag)
+        if cfg != "cfgC":      # the serde feature is off without default features
+            ctx.guard("serde-complete" + tag, serde_complete, ctx, crate, tag)
         order(ctx, crate, crs, tag)
         union_order(ctx, crate, tag)
         provider_siblings(ctx, crate, crs, tag)
@@ -187,6 +189,49 @@ LOSSY = {"filter", "filter_map", "skip", "take", "step_by", "skip_while", "take_
 TABLES = ("packages", "version_set_unions", "solvables", "version_sets", "strings")
 
 
+def _edits_in_place(b, held):
+    """Names of lossy / re-ordering calls made through a `&mut` borrow of one of the locals in `held`."""
+    mutrefs = set()
+    changed = True
+    while changed:
+        changed = False
+        for i, j, s_ in b.assigns():
+            r = s_["r"]
+            dst = s_["p"]
+            if "p" in dst and dst.get("p"):
+                continue
+            src = None
+            if r["k"] == "ref" and r.get("bk") == "mut":
+                base = r["p"]["l"]
+                if (base in held and not [e for e in r["p"].get("p", []) if e == "*"]) or base in mutrefs:
+                    src = base
+            elif r["k"] == "use":
+                pl = operand_place(r["o"])
+                if pl is not None and pl["l"] in mutrefs and not pl.get("p"):
+                    src = pl["l"]
+            if src is not None and dst["l"] not in mutrefs:
+                mutrefs.add(dst["l"])
+                changed = True
+        for i, t in b.calls():
+            f = t.get("f")
+            if f is None or not t["args"] or "p" in t["dest"] and t["dest"].get("p"):
+                continue
+            pl = operand_place(t["args"][0])
+            if pl is not None and pl["l"] in mutrefs and f["name"] in ("deref_mut", "as_mut_slice", "as_mut", "borrow_mut", "index_mut") \
+                    and t["dest"]["l"] not in mutrefs:
+                mutrefs.add(t["dest"]["l"])
+                changed = True
+    out = []
+    for i, t in b.calls():
+        f = t.get("f")
+        if f is None or not t["args"]:
+            continue
+        pl = operand_place(t["args"][0])
+        if pl is not None and pl["l"] in mutrefs and f["name"] in LOSSY | {"reverse", "rotate_left", "rotate_right", "swap", "clear", "dedup_by", "sort_unstable_by", "sort_by_cached_key"}:
+            out.append(f["name"])
+    return sorted(set(out))
+
+
 def faithful_copy(ctx, crate, crs, tag):
     """What the capture stores in the snapshot tables is the provider's answer as given: the backward slice of every value
     inserted into a `result.<table>` contains no lossy or re-ordering iterator/vector operation."""
@@ -208,6 +253,11 @@ def faithful_copy(ctx, crate, crs, tag):
         for a in t["args"][2:]:
             lv |= q.leaves(b, a)
         bad = sorted(x[5:] for x in lv if x.startswith("call:") and x[5:] in LOSSY)
+        # ... and the value is not edited in place on its way into the table (`v.sort_unstable(); v.dedup();` - seed C16-15)
+        held = set()
+        for a in t["args"][2:]:
+            held |= q.slice_locals(b, a)
+        bad += ["in-place " + x for x in _edits_in_place(b, held)]
         ctx.ob(R, b.key, "stored-as-given:%s" % tbl[-1], not bad, where_call(b, i),
                "the value stored in %s is built from the provider's answer without dropping or re-ordering elements%s" %
                (tbl[-1], (" (uses %s)" % ", ".join(bad)) if bad else ""))
@@ -505,3 +555,79 @@ def provider_siblings(ctx, crate, crs, tag):
         ctx.ob("provider-siblings" + tag, b.key, "dependencies=captured", ok, b.loc(), "dependencies are the captured ones")
     else:
         ctx.ob("provider-siblings" + tag, SP, "get_dependencies", False, "", "method not found")
+
+
+def serde_complete(ctx, crate, tag):
+    """The serialised form names everything it stores: a derived `Serialize` of an enum emits every variant under its own tag
+    (an untagged Requirement writes Single(3) and Union(3) as the same `3` - seed C16-13), its `Deserialize` reads an enum; a
+    derived `Serialize` of a struct emits every field under its name (a skipped field is lost by the round trip unless it is empty),
+    and its `Deserialize` reads a struct."""
+    R = "serde-complete" + tag
+    n = 0
+    ser, de = {}, {}
+    for b in crate.bodies:
+        tr = str(b.d.get("impl_trait") or "")
+        x = b.d.get("impl_adt")
+        if not x or x not in crate.adts or b.kind not in ("AssocFn", "Fn"):
+            continue
+        if tr.endswith("_serde::Serialize") and b.key.endswith("serialize"):
+            ser[x] = b
+        elif "_serde::Deserialize" in tr and b.key.endswith("deserialize"):
+            de[x] = b
+    for x, b in sorted(ser.items()):
+        a = crate.adts[x]
+        calls = [(t["f"]["name"], t) for i, t in b.calls() if t.get("f")]
+        derived = any(any(str(e).startswith("macro:serde::Serialize") for e in (t.get("exp") or [])) for _, t in calls)
+        if not derived:
+            continue        # hand-written impls (Mapping, SmallVec) have their own rules
+        cnames = lambda t: [str(o.get("s", "")).strip('"') for o in t["args"] if o.get("k") == "const" and o.get("ty") == "&str"]
+        dcalls = [t["f"]["name"] for i, t in de[x].calls() if t.get("f")] if x in de else []
+        if a["kind"] == "Enum":
+            n += 1
+            tags = set()
+            for nm, t in calls:
+                if nm.startswith("serialize_") and nm.endswith("_variant"):
+                    tags |= set(cnames(t)[1:])
+            want = {v["name"] for v in a["variants"]}
+            if want <= tags:
+                ctx.ob(R, x, "variants-can-be-told-apart-in-the-serialised-form", True, b.loc(),
+                       "every variant is written under its own tag %s" % sorted(tags))
+                ctx.ob(R, x, "deserialised-as-a-tagged-enum", "deserialize_enum" in dcalls, de[x].loc() if x in de else "",
+                       "Deserialize goes through deserialize_enum (found %s)" % sorted(set(c for c in dcalls if c.startswith("deserialize")))[:4])
+            else:
+                # untagged: acceptable only when the payloads have pairwise different serialised shapes (a map vs a number ...)
+                def shape(ty, depth=0):
+                    ty = ty.strip()
+                    if ty in ("u8", "u16", "u32", "u64", "usize", "i8", "i16", "i32", "i64", "isize"):
+                        return "number"
+                    if ty in ("std::string::String", "&str", "str"):
+                        return "string"
+                    if ty.startswith(("std::vec::Vec<", "[", "&[")):
+                        return "sequence"
+                    ad = crate.adts.get(ty.split("<")[0])
+                    if ad and ad["kind"] == "Struct" and depth < 4:
+                        fs = ad["variants"][0]["fields"]
+                        if len(fs) == 1 and str(fs[0]["name"]).isdigit():
+                            return shape(fs[0]["ty"], depth + 1)       # newtype: serialised as its content
+                        if fs and not str(fs[0]["name"]).isdigit():
+                            return "map"
+                    return "?:" + ty
+                shapes = {}
+                for v in a["variants"]:
+                    shapes[v["name"]] = shape(v["fields"][0]["ty"]) if len(v["fields"]) == 1 else ("unit" if not v["fields"] else "sequence")
+                vals = list(shapes.values())
+                distinct = len(set(vals)) == len(vals) and not any(s_.startswith("?:") for s_ in vals)
+                ctx.ob(R, x, "variants-can-be-told-apart-in-the-serialised-form", distinct, b.loc(),
+                       "untagged enum; serialised shapes of the variants: %s" % shapes)
+        elif a["kind"] == "Struct" and a["variants"] and a["variants"][0]["fields"] and not str(a["variants"][0]["fields"][0]["name"]).isdigit():
+            n += 1
+            written = set()
+            for nm, t in calls:
+                if nm == "serialize_field":
+                    written |= set(cnames(t))
+            want = {f["name"] for f in a["variants"][0]["fields"]}
+            ctx.ob(R, x, "every-field-serialised-under-its-name", want <= written, b.loc(),
+                   "fields %s; written: %s" % (sorted(want), sorted(written)))
+            ctx.ob(R, x, "deserialised-as-a-struct", "deserialize_struct" in dcalls, de[x].loc() if x in de else "",
+                   "Deserialize goes through deserialize_struct")
+    ctx.floor(R, "derived Serialize impls of enums / structs with named fields", n, 5)
